@@ -82,9 +82,12 @@ def cases(draw, hazard):
     k = draw(st.integers(1, 3))
     lex = []
     prefixes = []
+    raw, pool = draw(G.predrawn_layout(8))
+    all_items = [draw(st.lists(PREFIX_ITEM, max_size=4)) for _ in range(k)]       # small things first
+    semis = draw(st.booleans())
     for i in range(k):
         s = draw(st.one_of(G.statement(), G.statement(), G.statement(), st.sampled_from(ONE_LINERS).map(one_liner), paren_led))
-        items = draw(st.lists(PREFIX_ITEM, max_size=4))
+        items = all_items[i]
         pre = ''
         for it in items:
             if it.startswith('#') and pre and not pre[-1].isspace():
@@ -92,9 +95,9 @@ def cases(draw, hazard):
             pre += it
         prefixes.append(pre)
         lex.extend(s)
-        if i < k - 1 or draw(st.booleans()):
+        if i < k - 1 or semis:
             lex.append(list(G.SEMI))
-    laid = draw(G.layout(lex, comments=8))
+    laid = draw(G.layout(lex, comments=8, raw=raw, pool=pool))
     # write the prefix into the gap of each statement's first lexeme
     si = 0
     first = True
